@@ -462,6 +462,17 @@ def cases(tier, seed):
         yield {"ctx": "assign", "e": ("bin", "-", ("var", "B"), lit)}
         if lit[1] <= 32767:
             yield {"ctx": "assign", "e": ("bin", "AND", lit, ("var", "A"))}
+    # 3a. very small and very large literals: the value that reaches BASIC09 must be the value written, to all digits
+    big = ("num", 1e6, ["1", "E", "6"])
+    for lit in [("num", 0.0000125, [".0000125"]), ("num", 1.5e-6, ["1.5", "E", "-", "6"]), ("num", 2.5e-7, ["2.5", "E", "-", "7"]),
+                ("num", 1e-5, ["1", "E", "-", "5"]), ("num", 0.000123456, [".000123456"]), ("num", 3e-9, ["3", "E", "-", "9"]),
+                ("num", 0.0001, [".0001"]), ("num", 1.25e-10, ["1.25", "E", "-", "10"]), ("num", 123456789.0, ["123456789"]),
+                ("num", 1.5e10, ["1.5", "E", "10"]), ("num", 9.87654321e20, ["9.87654321", "E", "20"])]:
+        scale = big if lit[1] < 1 else ("num", 1e-6, ["1", "E", "-", "6"])
+        yield {"ctx": "assign", "e": ("bin", "*", ("bin", "*", lit, scale), scale if lit[1] < 1e-8 or lit[1] > 1e12 else X.num(1)), "approx": True}
+        yield {"ctx": "assign", "e": ("bin", "*", ("un", "-", lit), scale), "approx": True}
+        yield {"ctx": "if_noelse", "e": ("bin", ">", ("bin", "*", lit, scale), ("bin", "+", ("var", "A"), X.num(9))), "approx": True}
+        yield {"ctx": "if_else", "e": ("bin", "<", lit, ("bin", "*", lit, X.num(0.9))), "approx": True}
     # 3b. two literals next to each other in a same-precedence chain with a variable: the literal's emitted type must
     # not change the arithmetic (integer division, 16-bit wrap) whatever the neighbour is
     hexes = [l for l in X.LITERAL_SPELLINGS if l[0] == "hex"]
@@ -492,6 +503,17 @@ def cases(tier, seed):
                 if tier == "quick" and k % 2 and ctx not in ("on", "assign"):
                     continue
                 yield {"ctx": ctx + "@" + place, "e": e}
+    # the assignment target is read only inside the arguments of a LATER run-translated call of its own right-hand side
+    fnI = lambda x: ("fn", "INT", [x])
+    for e in [("bin", "+", fnI(("var", "B")), fnI(("var", "A"))), ("bin", "-", ("bin", "*", fnI(("bin", "/", ("var", "C"), X.num(2))), X.num(2)), fnI(("bin", "/", ("var", "A"), X.num(2)))),
+              ("bin", "+", ("fn", "VAL", [("var", "A$")]), ("fn", "LEN", [("fn", "STR$", [("var", "A")])])),
+              ("bin", "+", ("bin", "+", fnI(("var", "B")), fnI(("var", "C"))), fnI(("var", "A"))),
+              ("bin", "+", ("fn", "INSTR", [X.num(1), ("var", "A$"), ("var", "B$")]), fnI(("bin", "+", ("var", "A"), X.num(0.5))))]:
+        yield {"ctx": "self_assign", "e": e}
+        yield {"ctx": "self_assign@late", "e": e}
+    for e in [("bin", "+", ("fn", "STR$", [("var", "B")]), ("fn", "LEFT$", [("var", "A$"), fnI(X.num(1))])),
+              ("bin", "+", ("fn", "HEX$", [X.num(255)]), ("fn", "STRING$", [X.num(2), ("var", "A$")]))]:
+        yield {"ctx": "self_assign_s", "e": e}
     for e in [("fn", "STR$", [("var", "A")]), ("fn", "HEX$", [("fn", "INT", [("var", "B")])]), ("bin", "+", ("var", "A$"), ("fn", "STRING$", [X.num(2), ("var", "B$")])),
               ("fn", "LEFT$", [("var", "A$"), ("fn", "INT", [("var", "C")])])]:
         for ctx in STR_CONTEXTS:
